@@ -4,7 +4,9 @@
 N=$1; shift
 HERE=$(cd "$(dirname "$0")" && pwd)
 NAMES="$@"
-[ -z "$NAMES" ] && NAMES=$(cd $HERE/seeded && ls -d C*-* )
+MODE=${SEEDMODE:-run}            # SEEDMODE=benign: the behaviour-preserving rewrites under benign/
+BASE=seeded; [ "$MODE" = benign ] && BASE=benign
+[ -z "$NAMES" ] && NAMES=$(cd $HERE/$BASE && ls -d [BC]* | grep -v RESULTS )
 i=0
 for n in $NAMES; do k=$((i % N)); eval "S$k=\"\$S$k $n\""; i=$((i+1)); done
 k=0
@@ -13,18 +15,18 @@ while [ $k -lt $N ]; do
   git -C $HERE worktree remove --force $d 2>/dev/null; rm -rf $d
   git -C $HERE worktree add --detach $d HEAD >/dev/null 2>&1
   cp -r $HERE/lean/.lake $d/lean/.lake; [ -d $HERE/.numba_cache ] && cp -r $HERE/.numba_cache $d/.numba_cache
-  rm -f $d/seeded/RESULTS.json
+  rm -f $d/$BASE/RESULTS.json
   eval "names=\$S$k"
-  ( cd $d && python3 tools_seeded.py run $names > /tmp/vshard-$k.log 2>&1 ) &
+  ( cd $d && python3 tools_seeded.py $MODE $names > /tmp/vshard-$k.log 2>&1 ) &
   k=$((k+1))
 done
 wait
-python3 - "$HERE" "$N" <<'P'
+python3 - "$HERE" "$N" "$BASE" <<'P'
 import json,sys,os
-here,n=sys.argv[1],int(sys.argv[2])
-p=os.path.join(here,'seeded','RESULTS.json'); r=json.load(open(p)) if os.path.exists(p) else {}
+here,n,base=sys.argv[1],int(sys.argv[2]),sys.argv[3]
+p=os.path.join(here,base,'RESULTS.json'); r=json.load(open(p)) if os.path.exists(p) else {}
 for k in range(n):
-    q=f'/tmp/vshard-{k}/seeded/RESULTS.json'
+    q=f'/tmp/vshard-{k}/{base}/RESULTS.json'
     if os.path.exists(q): r.update(json.load(open(q)))
 json.dump(r,open(p,'w'),indent=1,sort_keys=True)
 miss=[k for k,v in sorted(r.items()) if not v.get('caught')]
